@@ -141,6 +141,7 @@ fn gen_count(rng: &mut Rng, allow_overflow: bool) -> Count {
             val: rng.below(1000) as u128,
         }),
         7 => Count::Num(Dec::plain(rng.next() as u128)),
+        8 => Count::Num(Dec::plain(rng.range(1, 2) as u128)),
         _ => Count::Num(Dec::plain(rng.range(1, 5000) as u128)),
     }
 }
@@ -275,7 +276,7 @@ pub fn sem(r: &Report) -> Result<Vec<(String, CovResult)>, &'static str> {
                         return Err("Parse");
                     }
                     let n: u64 = match c {
-                        Count::Neg(_) => 1,
+                        Count::Neg(_) => 0,
                         Count::Num(d) => {
                             if d.val > u64::MAX as u128 {
                                 return Err("Parse");
